@@ -1,6 +1,7 @@
 package vc
 
 import (
+	"govc/internal/spec"
 	"fmt"
 	"go/types"
 	"strings"
@@ -28,6 +29,14 @@ func (x *exec) builtin(st *State, fr *Frame, ins ssa.Instruction, b *ssa.Builtin
 			n := e.ctx.Name("maplen", smt.App(bv64, f, a.one(), smt.IntLit(int64(st.gen*1000000+len(st.heap)))))
 			st.assume(smt.BVCmp("bvsge", n, zero64))
 			st.assume(smt.BVCmp("bvsle", n, smt.BVLit(1<<46, 64))) // a map holds no more entries than memory can
+			// a map of length zero (the nil map included) holds no key
+			{
+				hk, ks, _, _ := x.mapKeys(t)
+				inner := e.ctx.Name("lenhas", smt.Select(e.heapArr(st, hk, smt.Ref, smt.ArrayOf(ks, smt.Bool)), a.one()))
+				q := fmt.Sprintf("(forall ((k!ln %s)) (! (not (select %s k!ln)) :pattern ((select %s k!ln))))", ks, inner.S, inner.S)
+				st.assume(smt.Implies(smt.And(smt.Eq(n, zero64), smt.Not(smt.Eq(a.one(), e.null()))), smt.Term{S: q, Sort: smt.Bool}))
+				st.assume(smt.Implies(smt.Eq(a.one(), e.null()), smt.Eq(n, zero64)))
+			}
 			return []Value{scalar(tInt, n)}
 		case *types.Pointer:
 			if at, ok := types.Unalias(t.Elem()).Underlying().(*types.Array); ok {
@@ -52,6 +61,19 @@ func (x *exec) builtin(st *State, fr *Frame, ins ssa.Instruction, b *ssa.Builtin
 		k := e.leavesOf(args[1])[0]
 		harr := e.heapArr(st, hk, smt.Ref, smt.ArrayOf(ks, smt.Bool))
 		e.setHeapArr(st, hk, smt.Store(harr, m.one(), smt.Store(smt.Select(harr, m.one()), k, smt.False)))
+		return nil
+	case "clear":
+		m := args[0]
+		mt, ok := types.Unalias(m.T).Underlying().(*types.Map)
+		if !ok {
+			unsupported("clear of %v", m.T)
+		}
+		// clear(m): no key remains (a nil map is left alone)
+		hk, ks, _, _ := x.mapKeys(mt)
+		harr := e.heapArr(st, hk, smt.Ref, smt.ArrayOf(ks, smt.Bool))
+		vs := smt.ArrayOf(ks, smt.Bool)
+		empty := smt.Term{S: fmt.Sprintf("((as const %s) false)", vs), Sort: vs}
+		e.setHeapArr(st, hk, smt.Ite(smt.Eq(m.one(), e.null()), harr, smt.Store(harr, m.one(), empty)))
 		return nil
 	case "print", "println":
 		return nil
@@ -338,9 +360,79 @@ func (x *exec) intrinsic(st *State, fr *Frame, ins ssa.Instruction, ci calleeInf
 			return []Value{scalar(types.Typ[types.Bool], ok)}, true
 		}
 		x.setLockState(st, p, nv)
+		switch m {
+		case "Lock", "RLock":
+			x.monitorAcquire(st, fr, ins, p)
+		case "Unlock", "RUnlock":
+			x.monitorRelease(st, fr, ins, p)
+		}
 		return nil, true
 	}
 	return nil, false
+}
+
+// monitorOf finds the monitor clause of the unit whose lock expression designates the mutex p.
+func (x *exec) monitorOf(st *State, fr *Frame, p *Ptr) (*spec.Monitor, *Env) {
+	if x.unit == nil || x.unit.Spec == nil || len(x.unit.Spec.Monitors) == 0 {
+		return nil, nil
+	}
+	for _, mo := range x.unit.Spec.Monitors {
+		sel, ok := mo.Lock.(*spec.Sel)
+		if !ok {
+			specErr("monitor: the lock must be a field selector")
+		}
+		env := x.unitEnv(st, fr)
+		env.frame = nil // the monitor clause speaks about the unit's parameters
+		lp := env.lvalPtr(sel)
+		if lp.Kind == p.Kind && lp.Base.S == p.Base.S && typeKey(lp.Root) == typeKey(p.Root) && fmt.Sprint(lp.Path) == fmt.Sprint(p.Path) {
+			return mo, env
+		}
+	}
+	return nil, nil
+}
+
+// monitorAcquire: the unit has just acquired a mutex declared as a monitor. Whatever it knew about the guarded locations
+// is stale - other goroutines may have run their critical sections while this one waited; only the monitor invariant is
+// known about them now. The state reached is remembered as the "atlock" state of the path.
+func (x *exec) monitorAcquire(st *State, fr *Frame, ins ssa.Instruction, p *Ptr) {
+	mo, env := x.monitorOf(st, fr, p)
+	if mo == nil {
+		return
+	}
+	for _, g := range mo.Guards {
+		var before Value
+		sel, isSel := g.(*spec.Sel)
+		if isSel && !strings.HasPrefix(sel.Name, "$") {
+			before = x.loadVia(st, env.lvalPtr(sel))
+		}
+		env.havocLocation(st, g)
+		if isSel && !strings.HasPrefix(sel.Name, "$") {
+			// what another goroutine installs in a guarded pointer field is an object it allocated meanwhile (or nil); an
+			// object that existed when this unit started and was not installed then is not installed now
+			after := x.loadVia(st, env.lvalPtr(sel))
+			for i := range after.L {
+				if after.L[i].Sort == smt.Ref && i < len(before.L) && x.unit.entry != nil {
+					st.assume(smt.Or(smt.Eq(after.L[i], before.L[i]), smt.Eq(after.L[i], x.e.null()), smt.IntBin(">", x.e.stamp(after.L[i]), x.unit.entry.clock)))
+				}
+			}
+		}
+	}
+	env2 := x.unitEnv(st, fr)
+	env2.frame = nil
+	env2.foreignAlloc = true
+	st.assume(env2.evalBool(mo.Inv.Expr))
+	st.atLock = st.snapshot()
+	x.e.note("monitor %s of %s: guarded locations re-read at acquisition (invariant assumed there, proved at release); objects the invariant calls allocated are assumed not to be allocations of this unit (it cannot have published them into the guarded state without the lock)", exprString(mo.Lock), x.unit.Name)
+}
+
+// monitorRelease: the monitor invariant is an obligation when the mutex is released.
+func (x *exec) monitorRelease(st *State, fr *Frame, ins ssa.Instruction, p *Ptr) {
+	mo, env := x.monitorOf(st, fr, p)
+	if mo == nil {
+		return
+	}
+	g := x.guardedGoal(env, mo.Inv.Expr)
+	x.e.obligation(st, "monitor", "release"+x.siteName(ins)+":"+clauseName(mo.Inv, 0), mo.Inv.Tag, "monitor invariant holds when the lock is released: "+mo.Inv.Text, mo.Inv.Pos.String(), g)
 }
 
 func (x *exec) lockKey(p *Ptr) (string, bool) {
